@@ -94,7 +94,7 @@ class C02(Prop):
 class C03(Prop):
     id = "C03"; module = "Adsb.Theorems.C03"; design_ref = "5/C03"
     deps = ["shape:modes_checksum", "shape:Frame::read_crc", "shape:ReaderCrc::read", "shape:ReaderCrc::seek"]
-    rule = ("every byte value at every byte position of 3 background frames per format length; all single and double bit flips of valid "
+    rule = ("every byte value at every byte position of 3 background frames per format length; frames of every format followed by 1..18 further bytes; all single and double bit flips of valid "
             "squitters; random weight<=5 patterns and bursts<=24; address/interrogator overlays; non-trivial = distinct (frame, crc) pairs")
     claim = ("crc = remainder mod 0x1FFF409 of the leading bits xor last 24 bits (theorem over all byte strings); table regenerated from source and proved equal to the "
              "polynomial remainders; crc = a iff last 24 bits = parity xor a (address / interrogator overlay); every burst of <= 24 bits and every pattern of 1..5 bit flips "
@@ -143,6 +143,12 @@ class C03(Prop):
                     if off + ln > 112: continue
                     v = int.from_bytes(b, "big") ^ (pat << (112 - off - ln))
                     ops.append(hexop("F", v.to_bytes(14, "big")))
+        # the checksum window when the buffer continues after the frame (the next frames of a recording): 1..18 further bytes after every base
+        # frame of every format - the structural parse of DF19 / DF20 stops before the end of the frame, the tail is pulled in afterwards
+        for b in bases + valid:
+            for extra in (1, 2, 3, 4, 7, 14, 18):
+                for rep in range(2):
+                    ops.append(hexop("F", bytes(b) + rng.bits(8 * extra).to_bytes(extra, "big")))
         # the checksum window when the frame is read from a reader (fragmented, interrupted) that does not start at offset 0:
         # the second and later frames of a recording held in one reader
         for b in bases + valid:
@@ -1014,7 +1020,9 @@ class C19(Prop):
 
 class C01(Prop):
     id = "C01"; module = "Adsb.Theorems.C01"; design_ref = "5/C01"
-    deps = ["panic:"]     # the inventory of unwrap / expect / panic-family macros / indexing / narrowing casts in the two library crates
+    # the inventory of unwrap / expect / panic-family macros / indexing / narrowing casts in the two library crates, and - because the
+    # totality theorems are about the model of the *whole* decoder - every layout item and every modelled function body
+    deps = ["panic:", "layout:", "shape:"]
     stateful = True
     rule = ("all 32 formats x lengths 1..32 x {zeros, ones, random}; every field of every type at extreme values; structured and malformed frames: decode, "
             "render, velocity; all ordered pairs from a pool of position reports (CPR pairing); tracker histories with receivers at poles / antimeridian "
@@ -1033,6 +1041,16 @@ class C01(Prop):
         for df in (0, 4, 16, 20):
             for c in list(range(0, 8192, 7)) + [0x1eaf, 0x1fff, 0x010a, 0x050a, 0x0a]:
                 b = rand_frame(rng, df); put(b, 19, 13, c); fr.append(hexop("F", b))
+        # operational status (type 31, subtype 0/1): every version number and every value of each reserved group, one gate at a time,
+        # so that a report which is rejected today but would be accepted (and then rendered, tracked ...) after a change is exercised
+        for df in (17, 18):
+            for st in (0, 1):
+                for ver in range(8):
+                    for rep in range(3):
+                        b = rand_frame(rng, df, tc=31); make_opstatus_ok(rng, b, st); put(b, 72, 3, ver); fr.append(hexop("F", b))
+                for off in (40, 44, 56):
+                    for v in range(4):
+                        b = rand_frame(rng, df, tc=31); make_opstatus_ok(rng, b, st); put(b, off, 2, v); fr.append(hexop("F", b))
         for c in range(0, 4096, 3):
             b = rand_frame(rng, 17, tc=11); put(b, 40, 12, c); fr.append(hexop("F", b))
         ops = list(fr)
